@@ -319,4 +319,20 @@ def check_case(case):
     _compare(res, cur, bad, "call:" + "+".join(filters), f"do_call(method={method}, filters={filters})")
     if not segarr.data.equals(before):
         bad("input-modified", "do_call changed its input array")
+    # ---- command-line tier (a quarter of the cases): `cnvkit.py call --filter ...` = do_call on the same written table
+    from vk import gen
+
+    if gen.pick(case, "cli", 4) == 0 and not out:
+        import shutil
+        import tempfile
+
+        from vk import cli
+
+        d = tempfile.mkdtemp(prefix="vk14.")
+        try:
+            diff = cli.call_diff(segarr, d, method, case["ploidy"], case["purity"], case["male_ref"], case["female"], None, filters, None)
+            if diff:
+                bad("cli:call", diff)
+        finally:
+            shutil.rmtree(d, ignore_errors=True)
     return out
